@@ -8,6 +8,7 @@
 mod driver;
 mod formats;
 mod host;
+mod mach;
 mod props;
 
 use driver::{Run, Tier};
@@ -117,6 +118,8 @@ fn real_main() -> i32 {
     driver::install_panic_hook();
     let mk = |name: &'static str| Run::new(name, seed, tier);
     dispatch!(id.as_str(), mk, &replay,
+        "C06" => c06,
+        "C17" => c17,
         "C20" => c20,
     )
 }
